@@ -9,6 +9,7 @@ import env
 import framework as fw
 import samlbuild as sb
 import sp_common as spc
+import sp_history
 import tlc
 
 ISSUER = {'idp1': env.IDP1, 'idp2': env.IDP2, 'unknown': 'urn:verif:unknown-idp'}
@@ -83,6 +84,8 @@ def main():
                       '(4 RSA keys) x embedded certificate x only_use_keys_in_metadata x signature level; every one is decided '
                       'by the contract except flag-off/embedded-key cases which may go either way')
     chk.assumptions = list(fw.TOOL_ASSUMPTIONS)
+    # the same receiver over time: SPHistory.tla
+    sp_history.run(chk, 'C03')
     sb.cleanup()
     return chk.finish()
 
@@ -90,6 +93,8 @@ def main():
 def do_replay(path):
     spc.init_worker()
     j = json.load(open(path))
+    if 'hist' in j['detail']['case']:
+        return sp_history.do_replay(j)
     obs = replay(j['detail']['case'])
     print(json.dumps(dict((k, v) for k, v in obs.items() if k != 'doc'), indent=1))
     return 0
